@@ -2,6 +2,7 @@ package main
 
 import (
 	"fmt"
+	"strings"
 	"go/ast"
 	"go/token"
 	"go/types"
@@ -501,7 +502,9 @@ func (x *Exec) goStmt(fr *Frame, s *ast.GoStmt, st *State, k func(*State)) {
 
 type loopInfo struct {
 	modified  map[types.Object]bool
-	heapWrite bool
+	heapWrite bool     // some write to the heap
+	heapAll   bool     // a write whose target arrays are not known statically
+	prefixes  []string // heap key prefixes written through typed pointers / maps
 }
 
 func (x *Exec) analyseLoop(fr *Frame, nodes ...ast.Node) loopInfo {
@@ -554,6 +557,13 @@ func (x *Exec) analyseLoop(fr *Frame, nodes ...ast.Node) loopInfo {
 				li.modified[rootObj] = true
 			}
 			if viaPtr {
+				if pre := x.writePrefix(fr, e); pre != "" {
+					li.prefixes = append(li.prefixes, pre)
+				} else {
+					li.heapAll = true
+				}
+			}
+			if viaPtr {
 				li.heapWrite = true
 			}
 		}
@@ -571,6 +581,7 @@ func (x *Exec) analyseLoop(fr *Frame, nodes ...ast.Node) loopInfo {
 					ast.Inspect(a, func(m ast.Node) bool {
 						if c, ok := m.(*ast.CallExpr); ok && x.callMayWriteHeap(fr, c) {
 							li.heapWrite = true
+							li.heapAll = true
 						}
 						return true
 					})
@@ -596,6 +607,7 @@ func (x *Exec) analyseLoop(fr *Frame, nodes ...ast.Node) loopInfo {
 			case *ast.CallExpr:
 				if x.callMayWriteHeap(fr, s) {
 					li.heapWrite = true
+					li.heapAll = true
 				}
 				// pointer-receiver method calls on locals modify them
 				if se, ok := s.Fun.(*ast.SelectorExpr); ok {
@@ -625,9 +637,94 @@ func (x *Exec) havocForLoop(fr *Frame, st *State, li loopInfo) {
 			x.heapStore(st, p, x.freshValue(st, x.resolveType(obj.Type()), obj.Name()))
 		}
 	}
-	if li.heapWrite {
+	if li.heapAll {
 		x.havocHeap(st)
+	} else if li.heapWrite {
+		for _, pre := range li.prefixes {
+			for _, key := range st.heapKeys() {
+				if strings.HasPrefix(key, pre) {
+					old := st.heap[key]
+					st.heap[key] = Var(x.fresh("Hl_"+sanitize(key)), old.Sort)
+				}
+			}
+			x.lazyHavoc(st, pre)
+		}
 	}
+}
+
+// writePrefix names the heap arrays an assignment target writes: the struct
+// type of the innermost pointer dereference plus the field path from there.
+func (x *Exec) writePrefix(fr *Frame, e ast.Expr) string {
+	info := fr.pkg.TypesInfo
+	var fields []string
+	cur := ast.Unparen(e)
+	for {
+		switch r := cur.(type) {
+		case *ast.SelectorExpr:
+			sel, ok := info.Selections[r]
+			if !ok || sel.Kind() != types.FieldVal {
+				return ""
+			}
+			// promoted fields: expand the embedded path
+			bt := info.TypeOf(r.X)
+			if bt == nil {
+				return ""
+			}
+			names, ptrAt := x.fieldPathNames(bt, sel.Index())
+			if ptrAt >= 0 {
+				// dereference inside the path: the prefix starts at that pointer's element type
+				st := names[ptrAt].owner
+				pre := typeKey(st)
+				for _, n := range names[ptrAt:] {
+					pre += "." + n.name
+				}
+				for i := len(fields) - 1; i >= 0; i-- {
+					pre += "." + fields[i]
+				}
+				return pre
+			}
+			for i := len(names) - 1; i >= 0; i-- {
+				fields = append(fields, names[i].name)
+			}
+			cur = ast.Unparen(r.X)
+		case *ast.IndexExpr:
+			if tv := info.TypeOf(r.X); tv != nil {
+				if m, ok := x.resolveType(tv).Underlying().(*types.Map); ok && len(fields) == 0 {
+					return "map_" + typeKey(m)
+				}
+			}
+			return ""
+		default:
+			return ""
+		}
+	}
+}
+
+type pathName struct {
+	name  string
+	owner types.Type // struct type that declares the field
+}
+
+// fieldPathNames resolves a selection index path starting at type bt; ptrAt is
+// the last position in the path whose base is reached through a pointer (-1 if none).
+func (x *Exec) fieldPathNames(bt types.Type, index []int) ([]pathName, int) {
+	var out []pathName
+	ptrAt := -1
+	cur := x.resolveType(bt)
+	for i, idx := range index {
+		if p, ok := cur.Underlying().(*types.Pointer); ok {
+			cur = x.resolveType(p.Elem())
+			ptrAt = i
+		}
+		stt, ok := cur.Underlying().(*types.Struct)
+		if !ok {
+			return out, ptrAt
+		}
+		f := stt.Field(idx)
+		out = append(out, pathName{name: f.Name(), owner: cur})
+		cur = x.resolveType(f.Type())
+	}
+	return out, ptrAt
 }
 
 func (x *Exec) havocHeap(st *State) {
@@ -749,6 +846,12 @@ func (x *Exec) setRangeVar(fr *Frame, s *ast.RangeStmt, e ast.Expr, st *State, v
 
 func (x *Exec) rangeStmt(fr *Frame, s *ast.RangeStmt, st *State, k func(*State)) {
 	x.expr(fr, s.X, st, func(st *State, rv Value) {
+		if fv, ok := rv.(FuncV); ok && fv.Sym != nil {
+			if src, ok := x.iterSources[fv.Sym.Name]; ok && src.kind == "splitseq" {
+				// range over strings.SplitSeq: iterate the abstract piece sequence
+				rv = src.pieces
+			}
+		}
 		lc := x.loopContract(fr, s)
 		li := x.analyseLoop(fr, s.Body)
 		gname := fmt.Sprintf("range%d", lc.ord)
@@ -831,6 +934,18 @@ func (x *Exec) rangeStmt(fr *Frame, s *ast.RangeStmt, st *State, k func(*State))
 			}, k)
 		case SliceV:
 			st.assumeRaw(Le(pos, r.Len))
+			if _, isSig := rt.Underlying().(*types.Signature); isSig {
+				// iter.Seq[string]: the single loop variable is the element
+				x.fork(st, Lt(pos, r.Len), func(st *State) {
+					ev := x.sliceAt(r, pos)
+					x.assumeLoaded(st, ev)
+					x.setRangeVar(fr, s, s.Key, st, ev)
+					np := Add(pos, IntLit(1))
+					st.ghost["rangeidx"], st.ghost[gname] = IntV{np}, IntV{np}
+					body(st)
+				}, k)
+				return
+			}
 			x.fork(st, Lt(pos, r.Len), func(st *State) {
 				x.setRangeVar(fr, s, s.Key, st, IntV{pos})
 				if s.Value != nil {
